@@ -94,7 +94,7 @@ def pick (p : Obs × Obs) (e : Bool) : Obs := if e then p.2 else p.1
 def entNo (e : Bool) : Nat := if e then 1 else 0
 
 /-- post-condition of the operation on the observed before/after states; `none` = satisfied -/
-def judgeOp (op : List String) (ret : String) (before after : Obs × Obs) : Option String :=
+def judgeOp (L : KV) (LK : List Kind) (op : List String) (ret : String) (before after : Obs × Obs) : Option String :=
   let frame (site : String) (e : Bool) : Option String :=
     if pick after (!e) != pick before (!e) then some s!"{site}:other-entity-changed e={entNo (!e)}" else none
   let kindsSame (site : String) (e : Bool) : Option String :=
@@ -145,6 +145,49 @@ def judgeOp (op : List String) (ret : String) (before after : Obs × Obs) : Opti
         first [ if after != before then some "Properties.Len:read-changed-state" else none,
                 if ret != s!"n{(pick after e).m.length}" then some s!"Properties.Len:read-wrong e={entNo e} got={ret}" else none ]
       | none => some "bad-op"
+  | ["gf", e, k, d, fb] => match entOf e, keyOf k, valOf d, (fb.splitOn ",").mapM keyOf with
+      | some e, some k, some d, some fb =>
+        let m := (pick after e).m
+        let want := match lookup m k with
+          | some v => if v = 0 then d else v
+          | none => (firstFallback m fb).getD d
+        first [ if after != before then some "Properties.GetWithFallback:read-changed-state" else none,
+                if ret != s!"v{want}" then some s!"Properties.GetWithFallback:read-wrong e={entNo e} key={keyStr k} got={ret}" else none ]
+      | _, _, _, _ => some "bad-op"
+  | ["keys", e] => match entOf e with
+      | some e =>
+        first [ if after != before then some "Properties.Keys:read-changed-state" else none,
+                if ret != "k" ++ commaOr "-" ((sortNat (keysOf (pick after e).m)).map keyStr) then
+                  some s!"Properties.Keys:read-wrong e={entNo e} got={ret}" else none ]
+      | none => some "bad-op"
+  -- consumers: what the pg batch node-update builders sent for entity e, applied to the loaded state the way the
+  -- update statement does (stored kinds/properties united with the sent ones, minus the sent deletions), must give
+  -- the entity's current state
+  | ["drv", e] => match entOf e with
+      | some e =>
+        let cur := pick after e
+        if after != before then some "pg.NodeUpdateParameters:read-changed-state"
+        else match ret.splitOn " " with
+          | ["u", k, dk, pr, dp] =>
+            match (field k "kinds").bind parseKindList, (field dk "dkinds").bind parseKindList,
+                  (field pr "props").bind parseMap, (field dp "dprops").bind parseSet with
+            | some k, some dk, some pr, some dp =>
+              if !(reproducesB L cur.m (pr.getD []) dp) then
+                some s!"pg.NodeUpdateParameters:sent-properties-do-not-reproduce e={entNo e}"
+              else if !(kReproducesB LK cur.kinds k dk) then
+                some s!"pg.NodeUpdateParameters:sent-kinds-do-not-reproduce e={entNo e}"
+              else none
+            | _, _, _, _ => some ("pg.NodeUpdateParameters:bad-output " ++ ret)
+          | "builders-disagree" :: _ => some ("pg.LargeNodeUpdateRows:builders-disagree " ++ ret)
+          | _ => some ("pg.NodeUpdateParameters:bad-output " ++ ret)
+      | none => some "bad-op"
+  | ["rmerge", e, f] => match entOf e, entOf f with
+      | some e, some f =>
+        let b := pick before e; let a := pick after e; let o := pick before f
+        first [ (mergePost b.m a.m o.m o.del).map (fun k' => s!"Relationship.Merge:merge-result-wrong e={entNo e} key={keyStr k'}"),
+                kindsSame "Relationship.Merge" e,
+                if e != f then frame "Relationship.Merge" e else none ]
+      | _, _ => some "bad-op"
   | ["clone", e, f] => match entOf e, entOf f with
       | some e, some f =>
         first [ if propsPart (pick after f) != propsPart (pick before e) then some s!"Properties.Clone:clone-differs e={entNo f}" else none,
@@ -191,6 +234,7 @@ def sites (verb : String) : String × String :=
   else if verb = "clone" then ("Properties.Clone", "Properties.Clone")
   else if verb = "pmerge" then ("Properties.Merge", "Properties.Merge")
   else if verb = "merge" then ("Properties.Merge", "Node.Merge")
+  else if verb = "rmerge" then ("Relationship.Merge", "Relationship.Merge")
   else if verb = "addk" then ("Node.AddKinds", "Node.AddKinds")
   else if verb = "delk" then ("Node.DeleteKinds", "Node.DeleteKinds")
   else if verb = "load" then ("load", "load")
@@ -211,17 +255,19 @@ def step (st : MSt) (ts : List String) : MSt × String :=
   | _, "panic" :: _ => (st, "ok")       -- panics are reported by the flow itself
   | _, _ =>
     match splitOnTok "|" out with
-    | [[ret], d0, d1] =>
+    | [retToks, d0, d1] =>
+      let ret := " ".intercalate retToks
       match parseObs d0, parseObs d1 with
       | some o0, some o1 =>
         let after := (o0, o1)
         match op with
-        | ["load", m, ks] =>
+        | "load" :: m :: ks :: ctor =>
           match parseMap m, parseKinds ks false with
           | some m, some ks =>
             let st' : MSt := { L := m.getD [], LK := allSome ks, prev := some after }
             let want : Obs := { m := m.getD [], kinds := allSome ks }
-            if o0 != want || o1 != want then (st', "reject load:loaded-state-differs")
+            let site := "load." ++ (ctor.headD "as")
+            if o0 != want || o1 != want then (st', s!"reject {site}:constructor-state-differs (a constructor must yield the given store and an empty delta)")
             else match judgeBoth st' "load" none after with
               | some msg => (st', "reject " ++ msg)
               | none => (st', "ok")
@@ -231,7 +277,7 @@ def step (st : MSt) (ts : List String) : MSt × String :=
           | none => (st, "reject bad-op no-load")
           | some before =>
             let st' := { st with prev := some after }
-            match judgeOp op ret before after with
+            match judgeOp st.L st.LK op ret before after with
             | some msg => (st', "reject " ++ msg)
             | none =>
               match judgeBoth st verb (some before) after with
